@@ -48,6 +48,24 @@ def main(argv):
     if replay:
         return mod.replay(json.load(open(replay)))
     rep = core.Report(pid, tier, seed)
+    # a run of the real code that never returns (a thread waiting for itself, a loop that does not end) must not hang the check:
+    # after the time limit the check reports that it could not decide -- with what it found so far -- instead of staying silent
+    import threading
+
+    def _gave_up():
+        try:
+            rep.broken("the check did not come to an end within %d minutes: some execution of the code under /repo in the simulation "
+                       "never returned (families finished so far: %s)" % (LIMIT // 60, ", ".join(f.get("name", "?") for f in rep.families) or "none"))
+            rc = rep.finish()
+        except BaseException:
+            traceback.print_exc()
+            rc = 1
+        sys.stdout.flush()
+        os._exit(rc or 1)
+    LIMIT = int(os.environ.get("VERIF_TIME_LIMIT", "2400" if tier == "quick" else "28800"))
+    watchdog = threading.Timer(LIMIT, _gave_up)
+    watchdog.daemon = True
+    watchdog.start()
     try:
         info = core.build()
         if not info.model_ok:
@@ -77,6 +95,7 @@ def main(argv):
         tb = traceback.format_exc()
         print(tb)
         rep.broken("the check itself crashed: " + tb[-1500:])
+    watchdog.cancel()
     return rep.finish()
 
 
